@@ -150,6 +150,40 @@ def ob_sequence(nops, kinds):
     return h
 
 
+def r_direct(L, a):
+    """append_direct: no reordering or de-dup, except that an absolute path goes through the ordinary append (and may be de-duplicated)"""
+    if decide(bt_any(a.startswith('/'))): return r_iadd(L, [a])
+    return L + [a]
+
+
+DK = [0, 5, 7, 9]      # -I? -l? -f? /x/lib?.so
+
+
+def ob_direct(nops):
+    """append_direct / extend_direct mixed with += and reads: direct arguments keep their place in the order given, absolute paths included"""
+    def h():
+        real = CA(COMPILER, [])
+        ref = []
+        for i in range(nops):
+            op = choose(5, 'op%d' % i)
+            if op == 0:
+                b = [mkarg('a%d' % i, DK)]
+                real += list(b); ref = r_iadd(ref, b)
+            elif op == 1:
+                a = mkarg('a%d' % i, DK)
+                real.append_direct(a); ref = r_direct(ref, a)
+            elif op in (2, 3):
+                b = [mkarg('%s%d' % (t, i), DK) for t in 'abc'[:op]]
+                real.extend_direct(list(b))
+                for a in b: ref = r_direct(ref, a)
+                cover('extend_direct')
+            else:
+                same_list(list(real), ref, 'read'); cover('read')
+        same_list(list(real), ref, 'final')
+        cover('end')
+    return h
+
+
 def ob_lazy(nc, npre, npost, nbatch):
     """inductive step, oracle-free: from an arbitrary lazy state, `read; op` and `op` give the same list"""
     def h():
@@ -179,6 +213,9 @@ def obligations(tier):
     for n in ((3,) if q else (3, 4)):
         ks = SMALL if n == 3 else [0, 2, 5]
         out.append(Obligation('sequence[%d]' % n, ob_sequence(n, ks), dict(ops=n, kinds=[KINDS[k][0] + '?' + KINDS[k][1] for k in ks]), labels=('end', 'read', 'copy', 'add'), max_paths=6000000))
+    for n in ((1, 2) if q else (1, 2, 3)):
+        out.append(Obligation('direct[%d]' % n, ob_direct(n), dict(ops=n, operations='+=, append_direct, extend_direct of 2-3, read', kinds='-I? -l? -f? /x/lib?.so (absolute)'),
+                              labels=('end', 'extend_direct') + (('read',) if n > 1 else ()), max_paths=6000000))
     shapes = [(1, 1, 1, 1), (1, 2, 1, 1), (1, 1, 2, 1), (0, 1, 1, 2)] if q else [(1, 1, 1, 1), (1, 2, 1, 1), (1, 1, 2, 1), (0, 1, 1, 2), (2, 1, 1, 1), (1, 2, 2, 1), (1, 1, 1, 2), (2, 2, 2, 1)]
     for s in shapes:
         out.append(Obligation('lazy-step%s' % (s,), ob_lazy(*s), dict(container=s[0], pre=s[1], post=s[2], batch=s[3]), labels=('done',), max_paths=3000000))
